@@ -29,6 +29,8 @@ ASSUMPTIONS = [
 ]
 REQUIRED_PROBES = ["status", "cc_raised_ok", "named_status_ok", "command_object_reused"]
 
+NO_DECODE = {"testunitready", "write10", "write12", "write16", "writesame10", "synchronizecache10", "synchronizecache16",
+             "preventallowmediumremoval", "movemedium", "positiontoelement", "initializeelementstatus", "read10", "read12", "read16"}
 KINDS = [F.BLOCK, F.BLOCK, F.CHANGER, F.MMC, F.ANY]
 TRANSPORTS = ["sgio", "iscsi"]
 INTERESTING = [0x02, 0x04, 0x08, 0x18, 0x28, 0x30, 0x40]
@@ -190,6 +192,13 @@ def judge(dev, op, kind, val, deliveries, cmd, V, where):
         if kind == "exc" and isinstance(val, status_errors):
             V.append(dict(oracle="C07.phantom-error", where=where, detail=type(val).__name__,
                           expected="no status error: the target reported GOOD", actual=repr(val)[:120]))
+        elif kind == "exc" and (op.get("via") == "direct" or op["m"] in NO_DECODE):
+            # nothing is decoded on this path: a command the target completed with GOOD must simply return
+            # (e.g. no sticky failure state left behind by an earlier faulted command)
+            V.append(dict(oracle="C07.good-command-fails", where=where, detail=type(val).__name__,
+                          expected="returns normally: the target reported GOOD", actual=repr(val)[:120]))
+        elif kind == "ok":
+            WORLD.probe("good_returned")
         return
     if st == S.CHECK_CONDITION and d["handed"]:
         handed = d["handed"]
